@@ -42,6 +42,8 @@ checks = {
     "C11": dict(engine="inputmc", cat="exploration", tech="exhaustive enumeration of lease ids x manifest grammar x provider settings through the real kube builders and the real client.Deploy against client-go fake clientsets; semantic NetworkPolicy model",
                 text="Every object produced by the builders and found in the fake cluster after Deploy / re-Deploy is in (or selects only) the lease namespace; containers unprivileged, no escalation, no service-account token, limits == leased, 0 < requests <= limits; lidNS injective and DNS-1123 valid over the colliding id set; network policies admit outside ingress only from the ingress controller or to globally exposed ports and no egress to private ranges outside the namespace.", ref="6 C11",
                 note="trusted base: Kubernetes enforcement of the generated objects; client-go fake tracker (extended with DeleteCollection); one known finding (stale per-service policy after update) is listed in known_findings.json"),
+    "C19": dict(engine="chainmc", cat="model_checking", tech="exhaustive boundary grid (all singles and pairs, thorough: arithmetic triples, of every limit at/just beyond its bound plus overflow candidates) through ValidateBasic + real handler vs. an independent math/big predicate; stored-state predicate on every reachable state",
+                text="No create-deployment request of the grid that violates any limit (group count, unique names, unit count, per-unit cpu/memory/storage/replicas/price, denomination, group totals, 32-byte version, minimum deposit) is admitted, in the initial and in a populated state, and rejected requests leave the state hash unchanged; every deployment stored in any reachable state of S-life satisfies the predicate.", ref="6 C19"),
 }
 
 m = {
